@@ -125,6 +125,29 @@ def parseExecEv (s : String) : Option Exec.Ev :=
   | ["wakeup"] => some .wakeup
   | _ => none
 
+def parseCtlEv (s : String) : Option Ctl.Ev :=
+  match s.splitOn ":" with
+  | ["added", u, a, b] => do some (.added ⟨← u.toNat?, ← unhex a, ← unhex b⟩)
+  | ["removed", u, a, b] => do some (.removed ⟨← u.toNat?, ← unhex a, ← unhex b⟩)
+  | ["loop"] => some .loop
+  | ["track", k] => do some (.track (← k.toNat?))
+  | _ => none
+
+def parseRecvEv (s : String) : Option Recv.Ev :=
+  match s.splitOn ":" with
+  | ["start"] => some .start
+  | ["recv", k, c, b] => do some (.recv (← k.toNat?) (← c.toNat?) ((← b.toNat?) != 0))
+  | ["end", k] => do some (.endS (← k.toNat?))
+  | _ => none
+
+def parseSendQEv (i : Nat) (s : String) : Option SendQ.Ev :=
+  match s.splitOn ":" with
+  | ["write"] => some (.write i)
+  | ["write", p] => do some (.write (← p.toNat?))
+  | ["take"] => some .take
+  | ["flush"] => some .flush
+  | _ => none
+
 def dedupNat (l : List Nat) : List Nat := l.foldl (fun acc x => if acc.contains x then acc else acc ++ [x]) []
 
 def handle (op : String) (args : List String) : Option String :=
@@ -147,6 +170,13 @@ def handle (op : String) (args : List String) : Option String :=
     let data ← kvBytes args "data"
     let m : SignedMsg := { fromPeerId := frm, signature := { pubKey := spk, hashType := ht, sigData := sg }, data := data }
     some (runHandle r prev m args)
+  | "targets" => do
+    -- `execPublish` at (peer, link) granularity on the router's real tables
+    let r ← parseRouter args
+    let ch ← kvBytes args "ch"
+    let frm ← kvBytes args "from"
+    let prev ← kvBytes args "prev"
+    some s!"ok {showTpls (execPublishTargets r ch frm prev)}"
   | "fwd" => do
     let know ← (kv args "know").bind (parseList "+" parseKnow)
     let peers ← (kv args "peers").bind parsePlusNats
@@ -175,6 +205,21 @@ def handle (op : String) (args : List String) : Option String :=
     let s := Sub.run {} evs
     let calls := s.calls.map fun c => s!"{c.1}/{c.2.1}"
     some s!"ok calls={if calls.isEmpty then "_" else ",".intercalate calls} handlers={plusNats (sortNat s.handlers)} pending={plusNats s.pending} inchan={if s.inChan then 1 else 0}"
+  | "ctl" => do
+    let evs ← (kv args "evs").bind (parseList "," parseCtlEv)
+    let s := Ctl.run {} evs
+    some s!"ok opened={plusNats (sortNat (s.opened.map (·.uuid)))} inc={s.inc.length} tracked={s.tracked.length}"
+  | "recv" => do
+    let evs ← (kv args "evs").bind (parseList "," parseRecvEv)
+    let s := Recv.run {} evs
+    some s!"ok know={plusNats (sortNat s.know)} cur={match s.cur with | some k => toString k | none => "-"} live={plusNats (sortNat s.live)}"
+  | "sendq" => do
+    let cap ← kvNat args "cap"
+    let raw ← kv args "evs"
+    let toks := if raw = "_" then [] else raw.splitOn ","
+    let evs ← (toks.zipIdx.mapM fun (t, i) => parseSendQEv i t)
+    let s := SendQ.run { cap := cap } evs
+    some s!"ok inflight={if s.inflight.isSome then 1 else 0} queue={s.queue.length} blocked={if s.blocked = 0 then 0 else 1} accepted={s.accepted.length} delivered={s.delivered.length}"
   | "exec" => do
     let evs ← (kv args "evs").bind (parseList "," parseExecEv)
     let s := Exec.run {} evs
